@@ -166,4 +166,12 @@ theorem lines_in_order (text : Str) (i : Nat) (h : i < (readlines text).length) 
 example : prettierLine [120, 34, 34, 34, 121, 32, 122] = [88, 34, 34, 34, 121, 32, 122] := by decide
 example : litAfter false [120, 34, 34] = false ∧ 34 ∉ [121, 122] := by decide
 
+/-- with standard input among the sources: one output line per line the sources deliver, in order, each the formatting of its line -/
+theorem src_line_count (srcs : List (Bool × Str)) :
+    (prettierSrc srcs).length = (srcs.flatMap (fun p => sourceLines p.1 p.2)).length := by
+  simp [prettierSrc]
+
+theorem src_lines (srcs : List (Bool × Str)) :
+    prettierSrc srcs = (srcs.flatMap (fun p => sourceLines p.1 p.2)).map prettierLine := rfl
+
 end Moto.C17
